@@ -218,6 +218,17 @@ func (x *Exec) addMod(env *SpecEnv, m *ModSet, e Expr) {
 		if id == nil || len(e.Args) != 1 {
 			sfail("bad modifies item")
 		}
+		switch id.Name {
+		case "allelems":
+			T := x.typeArg(env, e.Args[0])
+			m.whole["E|"+typeName(T.G)] = true
+			return
+		case "allmaps":
+			T := x.typeArg(env, e.Args[0])
+			mt := T.G.Underlying().(*types.Map)
+			m.whole["M|"+typeName(mt.Key())+">"+typeName(mt.Elem())] = true
+			return
+		}
 		a := x.eval(env, e.Args[0])
 		switch id.Name {
 		case "elems":
@@ -398,6 +409,11 @@ func (x *Exec) applyContract(fr *Frame, st *State, fc *FuncContract, callee *ssa
 	for _, c := range fc.Ensures {
 		g := x.safeEvalBool(penv, c, key)
 		x.assume(Implies(st.pc, g))
+	}
+	for _, c := range fc.FreeEns {
+		g := x.safeEvalBool(penv, c, key)
+		x.assume(Implies(st.pc, g))
+		x.trusted["free ensures of "+key+" (assumed, not checked against its body): "+c.Text] = true
 	}
 	return rv
 }
